@@ -205,7 +205,7 @@ class Run(RunBase):
     def fail(self, oracle, detail):
         raise Violation(PROP, oracle, detail)
 
-    def check_obj(self, k, where):
+    def check_obj(self, k, where, quiet=False):
         sup, m = self.objs[k], self.models[k]
         self.checks += 1
         occ = [int(x) for x in sup.occ]
@@ -224,6 +224,8 @@ class Run(RunBase):
         for i, c in enumerate(occ):
             if i not in seen and c != -1:
                 self.fail("insane", "{}: object {} site {} has species {} but is in no list".format(where, k, i, c))
+        if quiet:
+            return      # unobserved step: attributes were read, but no method of the object is called
         if not sup.__sane__():
             self.fail("insane", "{}: object {} __sane__() is False".format(where, k))
         if list(sup.chemistry) != m.chem:
@@ -235,9 +237,9 @@ class Run(RunBase):
             self.fail("stoichiometry", "{}: object {} stoichiometry {!r} but the model has counts {}".format(
                 where, k, sup.stoichiometry(), [len(l) for l in m.order]))
 
-    def check_all(self, where):
+    def check_all(self, where, quiet=False):
         for k in range(len(self.objs)):
-            self.check_obj(k, where)
+            self.check_obj(k, where, quiet)
             self.note_state(self.world["class"], self.models[k].key())
 
     def expect_reject(self, k, call, exctypes, what):
@@ -267,6 +269,12 @@ class Run(RunBase):
 
     # ---- generator --------------------------------------------------------
     def propose(self, rng):
+        op = self.propose_inner(rng)
+        if self.world.get("quiet") and rng.random() < self.world["quiet"]:
+            op["q"] = 1
+        return op
+
+    def propose_inner(self, rng):
         nobj = len(self.objs)
         k = rng.randrange(nobj)
         m = self.models[k]
@@ -336,7 +344,11 @@ class Run(RunBase):
     def apply(self, index, op):
         kind = op["op"]
         obs = getattr(self, "op_" + kind)(op)
-        self.check_all("after " + kind)
+        # unobserved steps ("q"): the oracle only reads occ/chemorder; it calls no method of the objects, so that
+        # stretches of the history contain exactly the calls of the scripted editor
+        if op.get("q"):
+            self.probes["unobserved-op"] += 1
+        self.check_all("after " + kind, quiet=bool(op.get("q")))
         return "{}:{}".format(obs, ";".join("".join("v" if c < 0 else str(c) for c in m.occ) + "/" +
                                             ",".join(".".join(map(str, l)) for l in m.order)
                                             for m in self.models))
@@ -624,7 +636,7 @@ class Engine(object):
         if c == "intfirst" and rng.random() < 0.7:
             inter = [0]
         return {"crystal": c, "super": s, "Nsolute": ns, "interstitial": inter,
-                "class": "{}/{}/s{}{}".format(c, s, ns, "i" if inter else "")}
+                "class": "{}/{}/s{}{}".format(c, s, ns, "i" if inter else ""), "quiet": rng.choice((0, 0, 0.5, 0.9))}
 
     def draw_length(self, rng):
         return rng.choice((3, 8, 20, 40, 60, 100))
